@@ -117,6 +117,19 @@ func (r *Result) Unmodelled() string {
 	return ""
 }
 
+// CurrentUnmodelled returns the first read-only git command of the latest
+// in-process scan that the model git does not implement ("" if none).
+func CurrentUnmodelled() string {
+	mu.Lock()
+	defer mu.Unlock()
+	for _, inv := range Log {
+		if inv.Kind == modelgit.KUnexpected && modelgit.LooksReadOnly(inv.Args) {
+			return fmt.Sprint(inv.Args)
+		}
+	}
+	return ""
+}
+
 // Scan runs CollectReferences + ScanRepositoryUsingGraph on the model.
 // explicit are ROOT arguments (name, id) appended after the references.
 func Scan(env *modelgit.Env, rg sizes.RefGrouper, explicit [][2]string, style sizes.NameStyle, progress meter.Progress) (res Result) {
